@@ -265,6 +265,16 @@ def _reject_surrounding_whitespace(headers, hdr_validation_flags):
         yield header
 
 
+def _reject_empty_header_names(headers, hdr_validation_flags):
+    """
+    Raises a ProtocolError if any header name is empty.
+    """
+    for header in headers:
+        if not header[0]:
+            raise ProtocolError("Header names must not be empty.")
+        yield header
+
+
 def _reject_te(headers, hdr_validation_flags):
     """
     Raises a ProtocolError if the TE header is present in a header block and
@@ -628,6 +638,9 @@ def validate_outbound_headers(headers, hdr_validation_flags):
     :param headers: The HTTP header set.
     :param hdr_validation_flags: An instance of HeaderValidationFlags.
     """
+    headers = _reject_empty_header_names(
+        headers, hdr_validation_flags
+    )
     headers = _reject_te(
         headers, hdr_validation_flags
     )
